@@ -96,6 +96,8 @@ def replay(ctx, data):
     import random
     vlib.import_pymwp()
     inp = data.get("input", data)
+    if "src" not in inp:
+        return unitcorr.replay_unit(inp, "C02")
     src = inp["src"]
     out = []
     res = {}
